@@ -1,5 +1,6 @@
 import MuscleModel.Engines.Common
 import MuscleModel.Tunnel.Net
+import MuscleModel.Tunnel.Backpressure
 import MuscleModel.Wire.Decode
 
 /-! Engine `tun` (C12): up to three sending gateways, one receiving gateway, and a log of every packet
@@ -22,6 +23,10 @@ structure Sender where
   sex : Nat
   id : Nat
   level : Nat
+  off : Nat := 0                 -- `_currentOutputBufferOffset`
+  queue : List Bytes := []       -- payloads not yet completely written into packets
+  held : List Frag := []         -- tunnel: fragments of a packet the transport has not taken yet
+  cur : List Bytes := []         -- mini tunnel: chunks of such a packet
 
 structure St where
   kind : Nat := 0
@@ -70,6 +75,31 @@ def rxMany : St → List (Nat × Bytes) → St × List (Nat × Bytes)
     let b := rxMany a.1 r
     (b.1, a.2 ++ b.2)
 
+/-- `-` = the transport takes everything; otherwise the comma-separated return values of successive `Write`s -/
+def grants? (tok : String) : Option (List Nat) :=
+  if tok = "-" then some [] else (tok.splitOn ",").mapM u32?
+
+/-- queue the payloads, then call `DoOutput` as the harness does (`drain`); `g` scripts the transport -/
+def sendOp (s : St) (i : String) (g : List Nat) (ms : List String) : St × String :=
+  match nat? i, ms.mapM payload? with
+  | some i, some ms =>
+    match s.senders.getD i none with
+    | some sd =>
+      let q := sd.queue ++ ms
+      let r : List Bytes × Sender :=
+        if sd.kind = 0 then
+          let d := drain hdr (effMtu hdr sd.mtu) sd.magic sd.sex (txMeasure 0 q + g.length + 2) g
+                     { held := sd.held, id := sd.id, off := sd.off, queue := q }
+          (d.1, { sd with held := d.2.held, id := d.2.id, off := d.2.off, queue := d.2.queue })
+        else
+          let d := miniDrain ph ch bits (miniEffMtu ph ch sd.mtu) { mtu := sd.mtu, magic := sd.magic, sex := sd.sex, level := sd.level }
+                     (q.length + g.length + 2) g { cur := sd.cur, id := sd.id, queue := q }
+          (d.1, { sd with cur := d.2.cur, id := d.2.id, queue := d.2.queue })
+      ({ s with senders := s.senders.set i (some r.2), log := s.log ++ r.1.map (fun p => (i, p)) },
+       r.1.foldl (fun acc p => acc ++ " " ++ tokOfBytes p) "ok")
+    | none => (s, "bad-op")
+  | _, _ => (s, "bad-op")
+
 def step (s : St) (toks : List String) : St × String :=
   match toks with
   | ["case", n] => ({}, "case " ++ n)
@@ -89,18 +119,11 @@ def step (s : St) (toks : List String) : St × String :=
         ({ s with senders := s.senders.set i (some { kind := k, mtu := mtu, magic := magic, sex := sex, id := id, level := level }) }, "ok")
       else (s, "bad-op")
     | _, _, _, _, _, _, _ => (s, "bad-op")
-  | "send" :: i :: ms =>
-    match nat? i, ms.mapM payload? with
-    | some i, some ms =>
-      match s.senders.getD i none with
-      | some sd =>
-        let r : List Bytes × Nat :=
-          if sd.kind = 0 then sendAllBytes hdr { mtu := sd.mtu, magic := sd.magic, sex := sd.sex } sd.id ms
-          else miniSendAll Codec.none ph ch bits { mtu := sd.mtu, magic := sd.magic, sex := sd.sex, level := sd.level } sd.id ms
-        ({ s with senders := s.senders.set i (some { sd with id := r.2 }), log := s.log ++ r.1.map (fun p => (i, p)) },
-         r.1.foldl (fun acc p => acc ++ " " ++ tokOfBytes p) "ok")
-      | none => (s, "bad-op")
-    | _, _ => (s, "bad-op")
+  | "send" :: i :: ms => sendOp s i [] ms
+  | "sendw" :: i :: g :: ms =>
+    match grants? g with
+    | some g => sendOp s i g ms
+    | none => (s, "bad-op")
   | ["inject", pkt] =>
     match bytesOfTok pkt with
     | some p => ({ s with log := s.log ++ [(99, p)] }, "ok " ++ toString s.log.length)
